@@ -81,12 +81,44 @@ def static(ROOT, REPO, tier):
         violations.append(('proof', rp, ' no-failing-input-found'))
     # table numbers
     tab = os.path.join(ROOT, 'coq', 'theories', 'Gen', 'HookKinds.v')
-    rows = re.findall(r'mk_hook_row "(\w+)" "(\w+)" (true|false) (true|false) (\w+)', open(tab).read()) if os.path.exists(tab) else []
+    full = re.findall(r'mk_hook_row "(\w+)" "(\w+)" (true|false) (true|false) (\w+) "(\w*)" "(\w*)" (true|false) "(\w*)" "(\w*)" "(\w*)"',
+                      open(tab).read()) if os.path.exists(tab) else []
+    rows = [r[:5] for r in full]
     not_applied = [r[0] for r in rows if r[3] == 'false']
     not_collected = [r[0] for r in rows if r[2] == 'false']
+    # apply blocks whose shape is not "fold right-to-left over the field's own slice, from and to the hook of its kind"
+    bad_order = []
+    for (field, kind, coll, appl, d, base, store, nd, slc, bound, indexed) in full:
+        if appl != 'true':
+            continue
+        why = []
+        if d != 'Desc':
+            why.append('the loop runs %s (the wrapper of the first plugin would be innermost)' % d)
+        if bound != slc:
+            why.append('the loop is bounded by len(%s) but the wrappers of this field are collected into %s' % (bound, slc))
+        if indexed != slc:
+            why.append('the loop body takes its wrappers from %s but the wrappers of this field are collected into %s' % (indexed, slc))
+        if base != kind:
+            why.append('the fold starts from srv.hooks.%s instead of srv.hooks.%s' % (base, kind))
+        if store != kind:
+            why.append('the result is stored to srv.hooks.%s instead of srv.hooks.%s' % (store, kind))
+        if why:
+            bad_order.append((field, kind, why))
     cov.update({'hook_wrapper_fields': len(rows), 'hook_kinds_not_applied': not_applied, 'hook_kinds_not_collected': not_collected,
-                'hook_apply_loops_descending': len([r for r in rows if r[4] == 'Desc']), 'static_theorems': names,
+                'hook_apply_loops_descending': len([r for r in rows if r[4] == 'Desc']),
+                'hook_apply_blocks_with_wrong_shape': [b[0] for b in bad_order], 'static_theorems': names,
                 'static_failed': failed, 'notes_static': notes})
+    if bad_order:
+        # the concrete failing "input" of the static half: the row of the apply block
+        rp = os.path.join(ROOT, 'replays', 'C14-order.txt')
+        with open(rp, 'w') as f:
+            f.write('; property C14 (wrappers nest with the first plugin in plugin_order outermost; every wrapper is installed) fails on the source:\n')
+            for (field, kind, why) in bad_order:
+                f.write('; row %s (hook %s) of Gen/HookKinds.v: %s\n' % (field, kind, '; '.join(why)))
+            f.write('; theorem C14_order of Props/C14s.v no longer checks (row_order_ok is false for the row)\n'
+                    '; replay: plugins p1..pn in plugin_order that all set this wrapper, and a different number of plugins that set\n'
+                    ';         the wrapper of the other slice: what initPluginHooks installs is not compose [w_p1; ...; w_pn] base\n')
+        violations[:] = [v for v in violations if v[0] != 'proof'] + [('oracle', rp, '')]
     if not_applied or not_collected:
         # the concrete failing "input" of the static half: the HookWrapper field that is not installed
         try:
@@ -108,6 +140,8 @@ def static(ROOT, REPO, tier):
                                 % (', '.join(not_applied) or '-', ', '.join(not_collected) or '-'))
             # the proof break of C14_installed is explained by this row: report the row, not no-failing-input-found
             violations[:] = [v for v in violations if v[0] != 'proof'] + [('oracle', rp, '')]
+    if full and len(full) != len(re.findall(r'mk_hook_row "', open(tab).read())):
+        notes.append('some rows of Gen/HookKinds.v were not parsed by static_c14 (layout changed?)')
     return {'violations': violations, 'obligations': len(names), 'discharged': discharged, 'coverage': cov}
 
 
